@@ -39,7 +39,15 @@ def run(chk, driver, tier):
         import packaging.version as pv
     except Exception:
         pv = None
-    sample = [s for s in strings if all(ord(c) < 128 for c in s)][:400 if tier == "thorough" else 150]
+    # a full grid of suffix combinations over one release: every phase PEP 440 orders (dev only, pre, pre+dev, pre+post, final, post, post+dev, local …)
+    grid = []
+    for rel in ("1.0", "2.5.0"):
+        for pre in ("", "a1", "b2", "rc1"):
+            for post in ("", ".post1", ".post3"):
+                for dev in ("", ".dev2"):
+                    for loc in ("", "+abc", "+1"):
+                        grid.append(rel + pre + post + dev + loc)
+    sample = grid + [s for s in strings if all(ord(c) < 128 for c in s)][:400 if tier == "thorough" else 150]
     parsed = [bv.parse_version(s) for s in sample]
     for i, (s, p) in enumerate(zip(sample, parsed)):
         verdict = None
@@ -58,8 +66,10 @@ def run(chk, driver, tier):
                     verdict = "%r is not PEP 440 for packaging but parsed as Version %r" % (s, str(p))
         chk.oracle_case({"kind": "single", "s": s}, verdict)
     n = len(sample)
-    for _ in range(40000 if tier == "thorough" else 6000):
-        i, j, k = rng.randrange(n), rng.randrange(n), rng.randrange(n)
+    ng = len(grid)
+    triples = [(i, j, (i * 7 + j * 13) % ng) for i in range(ng) for j in range(ng) if (i + j) % (1 if tier == "thorough" else 3) == 0]
+    triples += [(rng.randrange(n), rng.randrange(n), rng.randrange(n)) for _ in range(40000 if tier == "thorough" else 6000)]
+    for i, j, k in triples:
         a, b, c = parsed[i], parsed[j], parsed[k]
         verdict = None
         if not (a <= b or b <= a):
